@@ -45,7 +45,7 @@ static int call_decoder(int f, decode_state &st, Bytes &T, size_t cut, size_t cn
 	return ret;
 }
 
-static void body(Run &r, Counters &c, int f, int L, Ctx &x)
+static void body(Run &r, Counters &c, int f, int L, Ctx &x, size_t gap = 0)
 {
 	Bytes in; std::vector<size_t> chunks; size_t cut = 0; uint64_t mask = 0; size_t len;
 	if (L > 0) {
@@ -81,7 +81,7 @@ static void body(Run &r, Counters &c, int f, int L, Ctx &x)
 	}
 	bool peeking = x.choose(2) != 0;
 	std::string sc = std::string(ref::framing_name[f]) + (cut ? "|two-iovec" : "|one-iovec") + (peeking ? "+peek" : "");
-	std::string desc = fmt("%s input {%s} arrival %zu chunk(s) mask=%llu cut=%zu peek=%d", ref::framing_name[f], ref::hexs(in).c_str(), chunks.size(), (unsigned long long) mask, cut, (int) peeking);
+	std::string desc = fmt("%s input {%s} arrival %zu chunk(s) mask=%llu cut=%zu peek=%d scratch=%zu", ref::framing_name[f], ref::hexs(in).c_str(), chunks.size(), (unsigned long long) mask, cut, (int) peeking, gap);
 	r.hint((sc + "|decode").c_str());
 	r.note("%s", desc.c_str());
 
@@ -99,9 +99,11 @@ static void body(Run &r, Counters &c, int f, int L, Ctx &x)
 
 	asan_error();
 	decode_state st;
-	Bytes T; size_t off = 0, seam = cut;   // seam moves when space is inserted in front of it
+	Bytes T(gap, 0xAA); size_t off = 0, seam = cut ? cut + gap : 0;   // seam moves when space is inserted in front of it
+	st.curr = gap;                            // scratch area in front of the encoded data
 	size_t delivered = 0; bool hard = false, check_content = true, bad = false;
 	int calls = 0, retries = 0, aftererr = 0; bool resumed = false;
+	size_t prevcurr = gap, errcurr = ~(size_t) 0;
 	auto fail = [&](const char *kind, const std::string &what) { if (!bad) r.violation(sc + "|" + kind, desc + ": " + what); bad = true; };
 
 	for (size_t ci = 0; ci <= chunks.size() && !bad; ++ci) {
@@ -135,23 +137,32 @@ static void body(Run &r, Counters &c, int f, int L, Ctx &x)
 			// writes only below the new input position
 			size_t lim = st.curr < T.size() ? st.curr : T.size();
 			if (!std::equal(T.begin() + lim, T.end(), before.begin() + lim)) { fail("writes-unconsumed", fmt("call %d (ret %d) changed bytes at or behind the new input position %zu: before {%s} after {%s}", calls, ret, st.curr, hex(before.data(), before.size()).c_str(), hex(T.data(), T.size()).c_str())); break; }
-			if (hard) { if (++aftererr >= 4) break; continue; }
+			// the input position never moves backwards: everything in front of it may already hold decoded bytes
+			if (st.curr < prevcurr) { fail("position-backwards", fmt("call %d (ret %d) moved the input position from %zu back to %zu", calls, ret, prevcurr, st.curr)); break; }
+			prevcurr = st.curr;
 			if (ret == MissingBuffer) {
 				if (st.curr > T.size()) { fail("state", fmt("input position %zu beyond the %zu available bytes", st.curr, T.size())); break; }
 				if (++retries > 40) { fail("no-progress", "decoder keeps asking for buffer space"); break; }
 				T.insert(T.begin() + st.curr, 8, 0xCC);
 				if (seam && seam >= st.curr) seam += 8;
-				st.curr += 8;
+				st.curr += 8; prevcurr = st.curr;
 				continue;
 			}
 			if (ret < 0) {
-				++c.errors; hard = true;
-				ref::Verdict v = delivered < frames.size() ? frames[delivered].v : ref::Incomplete;
-				if (check_content && (v == ref::Ok || v == ref::Incomplete)) fail("error-on-wellformed", fmt("error %d although the input so far is a %s frame", ret, v == ref::Ok ? "well-formed" : "well-formed but unfinished"));
-				else if (v == ref::Malformed) ++c.malformed_refused;
-				check_content = false;
+				// resumed after the error as well: a decoder that steps over the refused frame has to go on with the
+				// frames behind it, one that stays put has to keep refusing
+				++c.errors;
+				bool progress = !hard || st.curr != errcurr; errcurr = st.curr; hard = true;
+				if (progress) {
+					ref::Verdict v = delivered < frames.size() ? frames[delivered].v : ref::Incomplete;
+					if (check_content && (v == ref::Ok || v == ref::Incomplete)) fail("error-on-wellformed", fmt("error %d although the input so far is a %s frame", ret, v == ref::Ok ? "well-formed" : "well-formed but unfinished"));
+					else if (v == ref::Malformed) { ++c.malformed_refused; ++delivered; }
+					else check_content = false;
+				}
+				if (++aftererr >= 8 || (!progress && aftererr >= 3)) break;
 				continue;
 			}
+			if (!hard) aftererr = 0;
 			if (st.data.msg >= 0 && !(st.curr == lastcurr && st.data.msg == lastmsg)) {
 				// a message is delivered
 				if (st.data.pos + (size_t) st.data.msg > T.size()) { fail("state", "message range outside the buffer"); break; }
@@ -186,23 +197,24 @@ static void body(Run &r, Counters &c, int f, int L, Ctx &x)
 static int Lq(Tier t) { return t == Quick ? 4 : 5; }
 void mc_jobs(Tier t, std::vector<std::string> &jobs)
 {
-	// job = decoder : input length : first byte of the input
+	// job = decoder : input length : first byte of the input [: scratch bytes in front of the input]
 	for (int f = 0; f < 5; ++f) for (int len = 1; len <= Lq(t); ++len) for (size_t a = 0; a < sizeof ALPHA; ++a) jobs.push_back(fmt("%d:%d:%zu", f, len, a));
+	for (int f = 0; f < 5; ++f) for (size_t g : {1, 16}) for (int len = 1; len < Lq(t); ++len) for (size_t a = 0; a < sizeof ALPHA; ++a) jobs.push_back(fmt("%d:%d:%zu:%zu", f, len, a, g));
 	// family B (long single blocks around every code boundary): job = decoder : -(code index+1) : 0
 	for (int f = 0; f < 4; ++f) for (int ci = 0; ci < 9; ++ci) jobs.push_back(fmt("%d:%d:0", f, -(ci + 1)));
 }
 static void run(Run &r, const std::string &job, const Vec *rep)
 {
-	int f, len; size_t a;
-	if (sscanf(job.c_str(), "%d:%d:%zu", &f, &len, &a) != 3) return;
+	int f, len; size_t a, g = 0;
+	if (sscanf(job.c_str(), "%d:%d:%zu:%zu", &f, &len, &a, &g) < 3) return;
 	int L = Lq(r.tier);
 	Counters c = {};
 	if (len < 0) L = len;
-	if (rep) { dfs_replay(r, [&](Ctx &x) { body(r, c, f, L, x); }, *rep); return; }
+	if (rep) { dfs_replay(r, [&](Ctx &x) { body(r, c, f, L, x, g); }, *rep); return; }
 	for (const char *k : {"nontrivial", "resumed", "retry", "two_iovec", "errors", "delivered"}) r.require(k);
 	Vec root{(uint64_t) len - 1, (uint64_t) a};
 	if (len < 0) root.clear();
-	dfs(r, [&](Ctx &x) { body(r, c, f, L, x); }, -1, root);
+	dfs(r, [&](Ctx &x) { body(r, c, f, L, x, g); }, -1, root);
 	r.states += c.exec;
 	r.count("nontrivial", c.nontrivial); r.count("resumed", c.resumed); r.count("retry", c.retry); r.count("two_iovec", c.split);
 	r.count("errors", c.errors); r.count("delivered", c.delivered); r.count("peeks", c.peeks); r.count("malformed_refused", c.malformed_refused);
